@@ -355,7 +355,7 @@ pub fn run(args: &Args) -> i32 {
   let mut cfg = HistCfg {
     prop, max_roots: 2, bottom_up: true, bu_then: false, bu_pre: false, bu_over_report: false, bu_twice: false, bu_split: false, keep_session: false, set_fail: false, crashes: 0,
     depth: 0, state_cap: 0, probe: false, scope_in_key: true,
-    wall_cap: if quick { 45.0 } else { 2400.0 }, collect_digests: false, find_path_hash: None, stamp_fail: false, stage1: 0, decl_direct: false,
+    wall_cap: if quick { 55.0 } else { 2400.0 }, collect_digests: false, find_path_hash: None, stamp_fail: false, stage1: 0, decl_direct: false,
   };
   let mut slice = Slice::Wf;
   let mut map_faulty = false;
@@ -654,6 +654,7 @@ fn replay(args: &Args, prop: Prop, file: &std::path::Path, mut rep: Report) -> i
   let r = v.get("replay").unwrap_or(&v);
   if crate::sweep::replay(&mut rep, prop.name(), r) {
     rep.set("states", json!(1)); rep.set("transitions", json!(7)); rep.set("traces_validated_against_impl", json!(7));
+    rep.set("samples", json!([r.clone()]));
     rep.set("exhaustive", json!(false)); rep.set("rule", json!("replay of one depth-sweep case, executed twice with identical observations required"));
     return rep.finish();
   }
